@@ -53,7 +53,7 @@ SENT_N = -9999
 
 
 def quick_runs(prop):
-    return {'C24': 9000, 'C25': 9000, 'C26': 12000}[prop]
+    return {'C24': 14000, 'C25': 24000, 'C26': 20000}[prop]
 
 
 class FaultCrash(Exception):
@@ -162,7 +162,9 @@ class Base(object):
         fn(op)
 
     def op_fault(self, op):
-        self.cx.fs.arm(op['kind'], op['nth'], getattr(errno, op['err']))
+        # at most one pending fault, so that a statement is hit by at most one (clean signatures)
+        self.cx.fs.disarm()
+        self.cx.fs.arm(op['kind'], op['nth'], getattr(errno, op['err']), torn=op.get('torn'))
         self.run.probe('fault-armed')
 
     def fired_kind(self):
@@ -216,12 +218,25 @@ class Seq(Base):
             s += ':after-%s-fault-in-OPEN-%s' % (h['open_fault'], h['mode'])
         return s
 
-    def note(self, kind, h, fired=False):
+    def note(self, kind, h, fired=False, extra=None):
         if h is None:
-            self.run.state('C24', kind, None, fired)
+            self.run.state('C24', kind, None, fired, extra)
         else:
             self.run.state('C24', kind, h['mode'], min(len(self.recs(h)), 4), self.at_end(h),
-                           h['off'] > 0, bool(fired))
+                           h['off'] > 0, fired or None, extra)
+
+    @staticmethod
+    def shape(items):
+        """Abstract shape of an item list: kinds present, longest string bucket, blanks/commas/breaks inside."""
+        kinds = ''.join(sorted(set(it['t'] if it['t'] == 's' else it['typ'] for it in items)))
+        strs = [it['v'] for it in items if it['t'] == 's']
+        ln = max([len(x) for x in strs] or [-1])
+        bucket = -1 if ln < 0 else 0 if ln == 0 else 1 if ln <= 8 else 2 if ln <= 60 else 3 if ln < 254 else ln
+        feat = ''.join(c for c, t in (('b', any(x[:1] == b' ' or x[-1:] == b' ' for x in strs)),
+                                      ('c', any(b',' in x for x in strs)),
+                                      ('r', any(b'\r' in x or b'\n' in x for x in strs)),
+                                      ('h', any(max(x or b'\0') > 127 for x in strs))) if t)
+        return (min(len(items), 4), kinds, bucket, feat)
 
     def verify_host(self, name, h=None, acked=True):
         """After an acknowledged CLOSE: host bytes = reference bytes (+ optional EOF mark)."""
@@ -290,7 +305,7 @@ class Seq(Base):
             f['recs'] = []
         f['exists'] = True
         self.h[n] = {'name': name, 'mode': mode, 'ri': 0, 'off': 0, 'base': len(f['recs']),
-                     'open_fault': fk, 'after255': False}
+                     'open_fault': fk if mode == 'A' else None, 'after255': False}
         if fk:
             self.run.probe('open-succeeded-despite-fault')
             self.cx.fs.disarm()
@@ -386,7 +401,7 @@ class Seq(Base):
         h = self.h.get(n)
         r = self.cx.x(stmt, label)
         fk = self.fired_kind()
-        self.note(label, h, fk)
+        self.note(label, h, fk, self.shape(rec['items']) if rec['items'] else min(len(raw), 9) + (len(raw) > 253) * len(raw))
         if h is None or h['mode'] == 'I':
             if r.err is None:
                 self.bad('write-accepted:number-not-open-for-output', '%r succeeded' % stmt)
@@ -523,7 +538,7 @@ class Seq(Base):
         stmt = b'INPUT#%d,' % n + b','.join(names)
         r = self.cx.x(stmt, 'INPUT#')
         fk = self.fired_kind()
-        self.note('input#', h, fk)
+        self.note('input#', h, fk, (self.shape(got), r.err))
         # values: every variable holds the written value or (after a reported error) is untouched
         unset = False
         for j, it in enumerate(got):
@@ -579,7 +594,7 @@ class Seq(Base):
         stmt = b'LINE INPUT#%d,L1$' % n
         r = self.cx.x(stmt, 'LINE INPUT#')
         fk = self.fired_kind()
-        self.note('line-input#', h, fk)
+        self.note('line-input#', h, fk, (rec['k'], min(len(rem), 9) + (len(rem) > 253) * len(rem), r.err))
         v = bytes(d.get(b'L1$'))
         if r.err is not None and v != SENT_S:
             return self.bad('line-input#-assigned-after-error', '%r failed with %d yet L1$=%r' % (stmt, r.err, v[:60]))
@@ -617,7 +632,7 @@ class Seq(Base):
         stmt = b'C$=INPUT$(%d,#%d)' % (k, n)
         r = self.cx.x(stmt, 'INPUT$')
         fk = self.fired_kind()
-        self.note('input$', h, fk)
+        self.note('input$', h, fk, (rec['k'], min(k, 9), k == len(rem), r.err))
         v = bytes(d.get(b'C$'))
         if r.err is not None and v != SENT_S:
             return self.bad('input$-assigned-after-error', '%r failed with %d yet C$=%r' % (stmt, r.err, v[:60]))
@@ -886,19 +901,19 @@ class Rand(Base):
         gap = pos * h['reclen'] - len(data)
         self.note('put', h, (gap > 0) - (gap < 0), fk)
         new = bytes(h['buf'])
+        if op.get('rec') is None and h.get('get_at_eof'):
+            self.flag(name, 'implicit-put-after-get-at-or-beyond-eof')
+            self.run.probe('implicit-put-after-get-at-or-beyond-eof')
+        h['get_at_eof'] = False
+        if gap > 0 and pos > len(data) > 0:
+            self.flag(name, 'put-beyond-eof(recno-1>LOF>0)')
         if r.err is not None:
             if not fk:
                 return self.bad('put-error' + self.suffix(name), '%r gave error %d' % (stmt, r.err))
             self.run.probe('put-fault->BASIC-error')
             return self.resync(n, (pos, new), 'PUT')
-        if op.get('rec') is None and h.get('get_at_eof'):
-            self.flag(name, 'implicit-put-after-get-at-or-beyond-eof')
-            self.run.probe('implicit-put-after-get-at-or-beyond-eof')
-        h['get_at_eof'] = False
         if gap > 0:
             self.run.probe('record-gap-filled')
-            if pos > len(data) > 0:
-                self.flag(name, 'put-beyond-eof(recno-1>LOF>0)')
             data.extend(b'\0' * gap)
         start = pos * h['reclen']
         data[start:start + h['reclen']] = new
